@@ -503,11 +503,16 @@ def token_codec(ctx, rr):
                 if lv_ is not None and rv_ is not None:
                     continue        # a constant expression (`1 << bits` with bits known), not an operation on the value
                 for side, v in ((n.right, rv_), (n.left, lv_)):
-                    if v is not None and (side is n.right or isinstance(n.op, ast.Mult)):
-                        out.append((type(n.op).__name__, v))
+                    if v is not None and (side is n.right or isinstance(n.op, (ast.Mult, ast.BitAnd))):
+                        opn = type(n.op).__name__
+                        if opn == 'BitAnd' and v > 0 and (v + 1) & v == 0:
+                            opn, v = 'Mod', v + 1           # x & (2**k - 1) is x % 2**k on the non-negative values encoded here
+                        out.append((opn, v))
                         break
-            if isinstance(n, ast.AugAssign) and isinstance(n.value, ast.Constant) and isinstance(n.value.value, int):
-                out.append((type(n.op).__name__, n.value.value))
+            if isinstance(n, ast.AugAssign):
+                av_ = fold(n.value)
+                if av_ is not None:
+                    out.append((type(n.op).__name__, av_))
         return out
     checks = [
         ('base4_append', [('Mult', 4)]),
@@ -849,6 +854,16 @@ def filter_agree(ctx, rr):
         u = P.unit(qual)
         loops = _link_loops(P, u)
         if len(loops) != 1:
+            # the known wrong form: the link list folded into a dict keyed by something coarser than the link target (the target's
+            # webentity): two links that share the key overwrite each other's weight instead of adding up
+            dcs = [x for x in ast.walk(u.node) if isinstance(x, ast.DictComp) and any(isinstance(c, ast.Call) and any(t.cls == 'LinkStore' and t.is_gen for t in P.targets(c))
+                                                                                     for g_ in x.generators for c in ast.walk(g_.iter))]
+            coarse = [x for x in dcs if not (isinstance(x.key, ast.Name) and x.key.id in names_in_target(x.generators[0].target))]
+            if coarse:
+                rr.ob(ctx.where(u, coarse[0]), '%s adds the weight of every link' % qual, ok=False)
+                rr.fail(ctx.finding('R-FILTER-AGREE', u, coarse[0], '%s folds the links of a page into a dict keyed by `%s`: links to different pages of one webentity overwrite each other, so '
+                                    'the edge weight is the weight of the last link instead of the sum' % (qual, ast.unparse(coarse[0].key)[:40])))
+                continue
             raise AnalysisError('R-FILTER-AGREE: expected one link loop in %s' % qual)
         lp = loops[0]
         outer = _enclosing_for(P, u, lp)
@@ -1094,6 +1109,15 @@ def topk(ctx, rr):
             rr.ob(ctx.where(u, c), 'the bounded heap never evicts its minimum for a smaller newcomer', ok=False)
             rr.fail(ctx.finding('R-TOPK', u, c, 'heapq.heapreplace pops the current minimum unconditionally: a page with a lower indegree than everything kept evicts a better one '
                                 '(heappushpop, or push then pop, keeps the top k)'))
+            return
+    # the list handed to the heapq functions is only ever changed through them while it is being filled: a plain append breaks the heap
+    # invariant, so the next heappushpop compares with an arbitrary element instead of the minimum
+    heaps = {ast.unparse(c.args[0]) for c in P.own(u, ast.Call) if ast.unparse(c.func).startswith('heapq.') and c.args}
+    for c in P.own(u, ast.Call):
+        if isinstance(c.func, ast.Attribute) and c.func.attr in ('append', 'insert', 'extend') and ast.unparse(c.func.value) in heaps:
+            rr.ob(ctx.where(u, c), 'the bounded heap is only changed through heapq', ok=False)
+            rr.fail(ctx.finding('R-TOPK', u, c, '`%s` puts an entry into the heap list without heapq: until it is heapified the first element is not the minimum, and the heappushpop that '
+                                'follows evicts (or keeps out) the wrong page - the answer is not the top k' % ast.unparse(c)[:50]))
             return
     pushes_ = [c for c in P.own(u, ast.Call) if ast.unparse(c.func) == 'heapq.heappush']
     pops = [c for c in P.own(u, ast.Call) if ast.unparse(c.func) == 'heapq.heappop']
